@@ -732,6 +732,14 @@ class Interp:
             return d[0]
         if fn in ("alloc::string::String::new", "alloc::string::String::with_capacity"):
             return vstr("")
+        if fn == "alloc::vec::Vec::with_capacity":
+            return Val("list", [])
+        if fn in ("core::iter::sources::repeat::repeat", "core::iter::sources::repeat_n::repeat_n") and d:
+            if fn.endswith("repeat_n") and len(d) > 1 and d[1].k == "int":
+                return Val("iter", [d[0]] * d[1].v)
+            return Val("repeat", d[0])
+        if fn == "core::iter::traits::iterator::Iterator::take" and len(d) > 1 and d[0].k == "repeat" and d[1].k == "int" and 0 <= d[1].v < 100000:
+            return Val("iter", [d[0].v] * d[1].v)
         if fn in ("std::collections::hash::map::HashMap::new", "std::collections::hash::map::HashMap::with_capacity", "alloc::collections::btree::map::BTreeMap::new"):
             return Val("list", [], "map")
         if fn.startswith(("core::ops::bit::", "core::ops::arith::")) and len(d) == 2 and d[0].k == "int" and d[1].k == "int":
@@ -903,6 +911,21 @@ class Interp:
             if m_ in ("sort", "sort_unstable") and all(x.deref().k == "int" for x in cur.v):
                 env[tgt] = Val("list", sorted(cur.v, key=lambda x: x.deref().v), cur.extra)
                 return UNIT
+        if cur.k == "list" and fn in ("alloc::vec::Vec::resize", "alloc::vec::Vec::resize_with") and len(args) > 2 and args[1].deref().k == "int":
+            n_ = args[1].deref().v
+            if n_ <= len(cur.v):
+                env[tgt] = Val("list", list(cur.v[:n_]), cur.extra)
+                return UNIT
+            fill = args[2] if fn.endswith("resize") else self.call_closure(cs, args[2], [])
+            env[tgt] = Val("list", list(cur.v) + [fill] * (n_ - len(cur.v)), cur.extra)
+            return UNIT
+        if cur.k == "list" and fn == "alloc::vec::Vec::insert" and len(args) > 2 and args[1].deref().k == "int" and 0 <= args[1].deref().v <= len(cur.v):
+            i_ = args[1].deref().v
+            env[tgt] = Val("list", list(cur.v[:i_]) + [args[2]] + list(cur.v[i_:]), cur.extra)
+            return UNIT
+        if cur.k == "list" and fn == "alloc::vec::Vec::truncate" and len(args) > 1 and args[1].deref().k == "int":
+            env[tgt] = Val("list", list(cur.v[:args[1].deref().v]), cur.extra)
+            return UNIT
         if fn == "std::path::PathBuf::push" and len(args) > 1 and cur.k in ("str", "unknown"):
             a1 = args[1].deref()
             part = a1.v if a1.k == "str" else repr(a1)
@@ -924,7 +947,7 @@ class Interp:
                 return Val("list", [y for x in parts for y in x.v])
             return None
         if not d:
-            if fn == "alloc::vec::Vec::new":
+            if fn in ("alloc::vec::Vec::new", "alloc::vec::Vec::with_capacity"):
                 return Val("list", [])
             return None
         a = d[0]
